@@ -206,7 +206,7 @@ _p("C15", modules=["keys"], level="proof",
    trusted_base=["cryptography.hazmat.primitives (hashes, hmac, kdf.hkdf)"],
    not_under_contract=["QuicSession.check_key_epoch (epoch counting)", "QUIC v2 label set"])
 
-_p("C03", modules=["robustness", "demux", "quic_output", "main_run"], level="other",
+_p("C03", modules=["robustness", "demux", "ports", "quic_output", "main_run"], level="other",
    technique="contract-based deductive verification: exception freedom for arbitrary bytes / states with library calls allowed to fail; routing + frame obligations for isolation",
    level_text="Proved: for ANY TLS record (>= its 5 header bytes), ANY session flag state, ANY version state and a decryptor that fails or returns arbitrary bytes, the "
               "record reaches handle_tls_record through get_tls_records without an exception leaving get_tls_records (all nine record handlers executed from their real "
@@ -220,3 +220,5 @@ _p("C03", modules=["robustness", "demux", "quic_output", "main_run"], level="oth
    explanation="The TLS record path and the UDP entry point are proved exception-free for all inputs; the QUIC dissector path and key-derivation failures are listed as not under contract.",
    assumptions=["every library call may raise on any input (cryptography, dpkt)"], trusted_base=[],
    not_under_contract=["tlexport.quic.quic_dissector.extract_quic_packet", "QuicSession.handle_packet/handle_quic_packet/decrypt_packet", "Session.generate_keys exception freedom"])
+
+_p("C01", modules=["record_protection"], level="other", level_text="in progress", level_note="in progress", explanation="in progress")
